@@ -1,0 +1,14 @@
+//go:build verif
+
+// Contracts for the verifier in /verif (comment-only; compiled only with -tags verif, adds no code).
+package schema
+
+//@ contract (schema.Targetables).Less (ts, i, j)
+//@   requires 0 <= i && i < len(ts) && 0 <= j && j < len(ts)
+//@ contract (schema.Targetables).Swap (ts, i, j)
+//@   requires 0 <= i && i < len(ts) && 0 <= j && j < len(ts)
+//@   modifies ts[*]
+
+// Copy of a constraint keeps its kind (C17).
+//@ iface schema.Constraint.Copy () (result)
+//@   ensures [C17] sametype(result, self)
